@@ -632,17 +632,25 @@ class TunnelCommunity(Community):
             self.logger.warning("Ignoring answer with malformed key material for circuit %d", circuit.circuit_id)
             return
 
+        candidates: list[object] = []
+        if len(circuit.hops) + 1 < circuit.goal_hops:
+            # We will have to extend further: the candidate list must be readable BEFORE this hop is accepted. If it is
+            # not (altered in flight), the answer is ignored as a whole and the retry logic continues. Otherwise the hop
+            # would be appended while the retry cache of this very attempt stays behind and later "retries" it.
+            try:
+                candidates_bin = session_keys.decrypt_str(payload.candidates_enc, FORWARD)
+                candidates = cast("list[object]", self.serializer.unpack("varlenH-list", candidates_bin)[0])
+            except Exception:
+                self.logger.warning("Ignoring answer with an unreadable candidate list for circuit %d", circuit_id)
+                hop.keys = None
+                return
+
         circuit.unverified_hop = None
         circuit.add_hop(hop)
         self.circuits.get(circuit_id)  # Needed for notifying the Rust Endpoint
         self.logger.info("Added hop %d (%s) to circuit %d", len(circuit.hops), hop.peer, circuit.circuit_id)
 
         if circuit.state == CIRCUIT_STATE_EXTENDING:
-            candidates_enc = payload.candidates_enc
-            candidates_bin = session_keys.decrypt_str(candidates_enc, FORWARD)
-            candidates, _ = self.serializer.unpack("varlenH-list", candidates_bin)
-            candidates = cast("list[object]", candidates)
-
             relay_candidates = candidates
             exit_candidates = []
             for i in range(len(candidates) - 1):
